@@ -9,6 +9,8 @@ from ..expr import show, walk
 from ..linkpred import LINK, NOW, LinkSpace, closure_rt, find_link_and_now, mapping_for
 from ..pathcond import calls_to, field_stores
 
+from .. import roles
+
 LEVEL = "other"
 
 GATE = "srtla_core::selection::apply_stall_gate"
@@ -251,18 +253,15 @@ def d4_gate_multiplier(ctx):
     if pen is not None:
         ctx.chk.ob("D4", "GATED_LINK_PENALTY is a positive factor (a gate never zeroes a score)", 0.0 < pen <= 1.0, "= %r" % pen,
                    key="D4:const:GATED_LINK_PENALTY")
-    # gate_mult: every definition is a positive constant
-    gl = [l for l, n in enh.names.items() if n == "gate_mult"]
-    if len(gl) != 1:
-        ctx.chk.missing("D4", "enhanced: local gate_mult", "%d locals" % len(gl))
+    # the literal factors of the score product (the gate factor): all positive, never zero
+    from . import C11
+    rows, why = C11.score_rows(ctx)
+    if rows is None:
+        ctx.chk.missing("D4", "enhanced: the score product", why)
         return
-    defs = pa.fa.defs.get(gl[0], [])
-    vals = []
-    for d in defs:
-        v = pa.fa.val_rvalue(d[3], (d[0], d[1])) if d[2] == "assign" else None
-        vals.append(v)
-    ok = bool(vals) and all(v and v[0] == "const" and isinstance(v[1], float) and v[1] > 0.0 for v in vals)
-    ctx.chk.ob("D4", "gate multiplier takes positive constant values only", ok, "values: %s" % [show(v) if v else None for v in vals],
+    lits = sorted(set(v for (_c, _k, consts) in rows for v in consts))
+    ok = bool(rows) and all(isinstance(v, float) and v > 0.0 for v in lits)
+    ctx.chk.ob("D4", "gate multiplier takes positive constant values only", ok, "literal factors of the score: %s" % lits,
                key="D4:gate-mult-positive")
     # the weak / loss gates never `continue`: no skip edge depends on weak / loss_degraded
     sc = calls_to(enh, stable=CONN + "::get_score")
@@ -279,9 +278,10 @@ def d5_initial_best(ctx):
         if not fn:
             continue
         pa = ctx.pa(fn)
-        bl = [l for l, n in fn.names.items() if n == "best_score"]
+        b0 = roles.running_extreme(ctx.w, fn, None, hint="best_score")
+        bl = [b0] if b0 is not None else []
         if len(bl) != 1:
-            ctx.chk.missing("D5", "%s: local best_score" % sname(st), "%d locals" % len(bl))
+            ctx.chk.missing("D5", "%s: the running best score (literal %r before the loop, updated inside it)" % (sname(st), init), "%d locals" % len(bl))
             continue
         cfg = ctx.cfg(fn)
         defs = [d for d in pa.fa.defs.get(bl[0], []) if not cfg.in_cycle(d[0])]
@@ -354,9 +354,10 @@ def d7_hysteresis(ctx):
         return
     pa = ctx.pa(enh)
     sp = LinkSpace()
-    cl = [l for l, n in enh.names.items() if n == "current_score"]
+    c0 = roles.option_latch(ctx.w, enh, "f64", hint="current_score")
+    cl = [c0] if c0 is not None else []
     if len(cl) != 1:
-        ctx.chk.missing("D7", "enhanced: current_score / link", "")
+        ctx.chk.missing("D7", "enhanced: the per-pass record of the previous link's score (Option<f64>: None before the loop, Some inside)", "")
         return
     cur = cl[0]
     # returns of Some(last): assignments `_0 = Some(x)` where x is not best_idx
